@@ -186,6 +186,8 @@ def build(case):
     deck.cells.append(M.Cell(900, mat=0, geom=M.S(WORLD_SURF), imp={'n': '0'}))
     deck.surfs.sort(key=lambda s: s.id)
     deck.tags.add(f'c10.{fam}')
+    if rng.random() < 0.15:
+        M.add_unrelated_cards(deck, rng)
     return deck
 
 
